@@ -1484,10 +1484,11 @@ def run(repo, chk, tier):
     check_cache_and_lazy(repo, chk)
     check_batch_keys_and_aliases(repo, chk)
     check_batch_sum(repo, chk)
-    from .c18_copy import check_copy_isolation, check_extra_var_given, check_keyed_closures
+    from .c18_copy import check_copy_isolation, check_extra_var_given, check_keyed_closures, check_multifile_reader
 
     check_copy_isolation(repo, chk)
     check_extra_var_given(repo, chk)
     check_keyed_closures(repo, chk)
+    check_multifile_reader(repo, chk)
     chk.info("not decided (value level): batch arithmetic of _data_split (range(0, n, b), min), np.save/np.load/np.savez fidelity (save_data/load_data), "
              "LazyCall evaluation order, root_io")
